@@ -27,6 +27,7 @@ type Violation struct {
 	Order   []string
 	FloatInputs []string // names of float64 bit-pattern inputs (domain B); used to concretise UF models natively
 	UFOps   int
+	XDomain bool
 	Count   int
 	Known   string // matching known-finding line, if any
 	Replay  string
@@ -316,6 +317,7 @@ func (s *State) newViolation(kind, label, detail string) *Violation {
 	}
 	sort.Strings(v.FloatInputs)
 	v.UFOps = s.run.ufOps
+	v.XDomain = s.eng.cfg.Domain == DomainX
 	return v
 }
 
